@@ -213,6 +213,21 @@ CLAIMS = {
                 'nesting. Trusted: clang constant evaluation, the transcribed specification classes.',
         'design': 'DESIGN.md section 3, C16',
     },
+    'C04': {
+        'technique': 'static analysis: extraction of the RequestName / ReleaseName / queue-placement if-chains as '
+                     'branch structures and exhaustive enumeration of their boolean atoms against a table '
+                     'transcribed from the specification; error-kind summaries (only out-of-memory may follow a '
+                     'staged signal); must-pass-through of notifications and restore hook before queue edits',
+        'text': 'Decides, for all 48 + 4 + 6 combinations of flags and ownership state, that the reply code and the '
+                'set of registry mutators reached equal the specification (any extra condition in the decision is '
+                'reported); that after a signal or registry change was staged only out-of-memory can fail the '
+                'request; that notifications and the restore hook precede queue edits and the reply carries the '
+                'registry result; that the owner queue is edited only in services.c.',
+        'note': NOT_DECIDED_COMMON + 'Not decided: behaviour over histories (exact order after restore_ownership, '
+                'signal arguments and addressees), disconnect-driven changes. Oracle: spec_request() in rules/C04.py, '
+                'transcribed from doc/dbus-specification.xml (RequestName / ReleaseName).',
+        'design': 'DESIGN.md section 3, C04',
+    },
 }
 
 NOT_APPLICABLE = {
